@@ -12,3 +12,9 @@ package auction
 //@   explore steps
 //@   loop 0 invariant #any: true
 //@   loop 1 invariant #any: true
+
+// Genesis import of the first-generation auctions (C20): whatever state an export produced, importing it never panics -
+// in particular no exported amount is forced through a machine-integer conversion on the way back into the store.
+//@ func InitGenesis
+//@   property C20
+//@   nopanic
